@@ -38,8 +38,7 @@ def mutants(b, rng, k):
 def canary(row, rng):
     if row.get("op") != "bytes" or not row["fw"]["ok"] or not row["sd"]:
         return None
-    row["sd"][0]["g"] = {"g": "struct", "f": [{"n": "f", "v": {"g": "int", "n": 99}}]}
-    row["sd"][0]["ok"] = True
+    row["sd"][0]["ok"] = False           # the streaming path fails where the value path decoded
     return row
 
 
@@ -82,7 +81,9 @@ def run(ctx):
         base = fam
         n = 0
         for c in base:
-            for b in [c["b"]] + mutants(c["b"], rng, 4 if ctx.quick() else 25):
+            # (the long encodings are the deeply nested values of the recursive types: judged as they are, one mutant only --
+            # the oracle re-runs both path machines on every row and they are slow on deep terms)
+            for b in [c["b"]] + mutants(c["b"], rng, (4 if ctx.quick() else 25) if len(c["b"]) <= 150 else 1):
                 n += 1
                 cases.append({"id": "m%d" % n, "op": "bytes", "S": c["S"], "tn": c["tn"], "b": b})
         # evolved-schema inputs: encodings written for another type of the family with the same field id --
@@ -104,6 +105,8 @@ def run(ctx):
             for w in rng.sample(pool, min(len(pool), 6 if ctx.quick() else 40)):
                 n += 1
                 cases.append({"id": "x%d" % n, "op": "bytes", "S": rc["S"], "tn": tn, "b": w["b"]})
+    if not ctx.replay:
+        rng.shuffle(cases)              # spreads the few expensive rows (deeply nested values) over the shards of the oracle
     rows = c01.run_lab(ctx, lab, cases, name="c04")
     ctx.evals = len(rows)
     bad, drift = vlib.validate_trace(ctx, "C04Trace", rows, canary=canary, shard=600, timeout=3000)
